@@ -165,6 +165,18 @@ fn main() {
             }
             println!("DONE");
         }
+        "session" => {
+            // tsgv session <dir> <cases.ndjson> <out.ndjson>
+            exec::silence_panics();
+            let srcs = cases::load_sources(&args[2]);
+            let mut items = read_ndjson(&args[3]);
+            for it in items.iter_mut() {
+                let r = api::session(it, &srcs);
+                it["r"] = r;
+            }
+            write_ndjson(&args[4], &items);
+            println!("{} sessions", items.len());
+        }
         "retabs" => {
             // tsgv retabs <pool.json> <out.json>: tables of every (regex, subject) of a pool (oracle: regex crate)
             let pool: J = serde_json::from_str(&std::fs::read_to_string(&args[2]).expect("pool")).expect("json");
